@@ -5,7 +5,7 @@ from props_common import HARNESS_TB, EXTRACT_TB
 from prop_c03 import run_loggerfacts, KINDS
 
 FIELDS = ("single_write write_under_lock clone_shares_mu buf_from_pool free_deferred handle_readonly "
-          "reset_before_put refuses_oversized pool_new_empty gate_first level_stored_unchanged enabled_is_ge")
+          "reset_before_put refuses_oversized pool_new_empty gate_first level_stored_unchanged enabled_is_ge mu_out_never_assigned")
 
 
 def c02_static(tier):
@@ -81,7 +81,16 @@ CFG = dict(
                   "refuses (broken correspondence) when the code shape is not the one it knows",
                   "the LTS's atomic actions are those of the source read at statement granularity; sync.Mutex and sync.Pool are modelled by their "
                   "documented behaviour (mutual exclusion; Get returns any pooled object or a new one)"],
-    assumptions=["PARTIAL: the Go memory model and sync.Pool's per-P caches / GC-driven eviction are outside the model; data-race freedom of "
+    assumptions=["MODEL ASSUMPTION: formatting (LFormat) is pure, atomic and independent of other goroutines: it appends line c r to the "
+                 "goroutine's own buffer and touches nothing else. The second pool (TextHandler.prefixPool), user callbacks run while "
+                 "formatting (LogValuer, Marshalers, Stringers) and any package-level state of the renderers are OUTSIDE the model; the "
+                 "harness exercises them (source/colour on, gate values, -race), the theorem does not speak about them",
+                 "three facts feed no model flag and are harness-side ties only: handle_readonly (Handle and what it reaches assign to no "
+                 "handler field / package-level variable), level_stored_unchanged and enabled_is_ge (the gate is level >= the configured threshold)",
+                 "the source facts are SYNTACTIC pattern recognisers (rules in the header of gen/loggerfacts/main.go, self-test "
+                 "main_test.go): one known shape per function, top-level Lock / deferred Unlock / single Write in this order; anything else "
+                 "is refused (UNRECOGNISED => broken correspondence); no data flow through locals, no reflection",
+                 "PARTIAL: the Go memory model and sync.Pool's per-P caches / GC-driven eviction are outside the model; data-race freedom of "
                  "out/preformatted is covered by the lock/ownership facts plus the race detector in the harness, not by the theorem",
                  "the destination's Write is treated as atomic delivery of the chunk it is handed (what the io.Writer does with it is its own business)",
                  "line c r (the sequential meaning of a handler) is a parameter: the yardstick in the harness is the implementation alone"],
